@@ -56,7 +56,7 @@ def rule_E2(ctx, R):
                 ll = None
                 if label.startswith("Retrying::raw_") and kind == "ACQ":
                     ll = (n + 2) * 2
-                paths, err = explore(ctx, f, n, mode, kind, faults=0, loop_limit=ll, preheld=pre, addrs=addrs)
+                paths, err = explore(ctx, f, n, mode, kind, faults=0, loop_limit=ll, preheld=pre, addrs=addrs, acq_limit=2 if ll else None)
                 if err:
                     res.undecided(f["path"], "n=%d" % n, err, *_floc(f))
                     bad = "undecided"
